@@ -216,11 +216,23 @@ class AutoImport:
             if modname in self.names:
                 del self.names[modname]
             self.update_resource(newresource)
+        else:
+            self._forget_package(resource)
+            for file in submodules(newresource):
+                self.update_resource(file)
 
     def _removed(self, resource):
         if not resource.is_folder():
             modname = self._module_name(resource)
             if modname in self.names:
+                del self.names[modname]
+        else:
+            self._forget_package(resource)
+
+    def _forget_package(self, folder):
+        package = self._module_name(folder)
+        for modname in list(self.names):
+            if modname == package or modname.startswith(package + "."):
                 del self.names[modname]
 
 
